@@ -67,7 +67,8 @@ METHOD_TARGETS = {
                    "langserver.path_from_uri"],
 }
 EXCS = ["OSError", "MemoryError", "KeyError", "RecursionError", "ValueError", "IndexError",
-        "AttributeError", "TypeError", "UnicodeDecodeError", "RuntimeError"]
+        "AttributeError", "TypeError", "UnicodeDecodeError", "RuntimeError",
+        "KeyError0", "ValueError0", "RuntimeError0", "OSError0"]
 
 BAD_PARAMS = [
     None, [], [1, 2], "str", 5, {}, {"textDocument": 5}, {"textDocument": {}},
